@@ -604,7 +604,7 @@ def decoders(ctx, report):
             report.sample({'rule': 'C10.R2', 'decoder': f.construct, 'verdict': 'equality search returning the loop variable'})
     # length reported by NByteEnumParsable._parse is the width it read
     c = model.cls('NByteEnumParsable')
-    f = c.methods['_parse']
+    f = c.resolve('_parse')
     report.count('C10.R2')
     read_w = None
     ret_w = None
@@ -619,7 +619,7 @@ def decoders(ctx, report):
     dep = ctx.model.try_cls('CryptoDataEnumBase')
     if dep is not None and '_from_attr' in dep.methods:
         report.count('C10.R2')
-        g = dep.methods['_from_attr']
+        g = dep.resolve('_from_attr')
         good = False
         for node in ast.walk(g.node):
             if isinstance(node, ast.For) and isinstance(node.target, ast.Name):
